@@ -25,6 +25,7 @@ let table : (Stdlib.String.t * (z list -> z list)) list = [   (* Stdlib.: the ex
   ("paths", run_paths);
   ("href", run_href);
   ("idfrag", run_idfrag);
+  ("idfrag_premises", run_idfrag_premises);
   ("enum", run_enum);
   ("proxy", run_proxy);
   ("staticdecl", run_staticdecl);
